@@ -25,6 +25,7 @@ enum {
   VS_OP_CONDWAIT = 8,  // blocked in pthread_cond_wait until signalled, then needs the mutex
   VS_OP_IO = 9,        // watched I/O call / harness defined point that is always enabled
   VS_OP_FLOCK = 10,    // file lock acquisition (enabledness decided by a harness callback)
+  VS_OP_UNLOCK = 11,   // right after pthread_mutex_unlock(obj), only with vs_set_unlock_points(1)
 };
 
 enum {
@@ -97,6 +98,10 @@ void vs_set_digest_fn(uint64_t (*fn)(void));
 // Optional scheduling oracle: when set, it is asked at every point (after the forced prefix) which of the
 // enabled threads runs next (list in canonical order, returns an index, or -1 = diverged).
 void vs_set_chooser(int (*fn)(int running, const int *enabled, int n, void *arg), void *arg);
+// Also make the instant right after every pthread_mutex_unlock a scheduling point (always enabled).  Redundant for
+// data-race-free code (a preemption there is equivalent to one before the thread's next synchronisation operation), but
+// it lets the explorer itself exhibit the consequences of an access that was moved out of a critical section.
+void vs_set_unlock_points(int on);
 int vs_thread_simpid(int tid);
 // process-level simulated pid for the calling thread (C10); 0 = not set
 void vs_set_simpid(int pid);
